@@ -16,7 +16,7 @@ THEOREMS = [
     "C06_writer_srcsz_partial", "C06_writer_srcsz_refuted",
     "C06_wrapper_partial", "C06_wrapper_refuted",
     "C06_no_partial_success", "C06_no_partial_success_stream", "C06_no_partial_success_writer",
-    "C06_diff_roundtrip", "C06_diff_roundtrip_stream", "C06_diff_roundtrip_writer",
+    "C06_diff_roundtrip", "C06_diff_roundtrip_stream", "C06_diff_roundtrip_writer", "C06_diff_git",
     "C06_fuel_sufficient", "C06_leaves_tied",
 ]
 MODEL_FILES = ["Delta.v"]
